@@ -4,8 +4,10 @@
     such that "a lower estimate of x exceeds an upper estimate of y" implies y < x. *)
 From Dashu Require Import Base.Prelude Cross.XVal Cross.XOrdModel Cross.XDispatch Cross.XOrdProofs Cross.XPrimProofs
   Cross.XRatioProofs Cross.XDispatchProofs Cross.XHashProofs Cross.XEstInstance
-  Cross.XLog2Model Cross.XLog2Flocq Cross.XEstF32Model Cross.XEstF32 Cross.XPrimHashModel Cross.XPrimHashProofs Cross.XHashM127 Cross.XLog2Refuted Cross.XLog2ParamsTie Cross.XLog2Large Cross.XEstF32Any.
-From DashuGen Require Import XLog2Params.
+  Cross.XLog2Model Cross.XLog2Flocq Cross.XEstF32Model Cross.XEstF32 Cross.XPrimHashModel Cross.XPrimHashProofs Cross.XHashM127 Cross.XLog2Refuted Cross.XLog2ParamsTie Cross.XLog2Large Cross.XEstF32Any
+  Cross.XDubAny Cross.XPrimHashSpecial Cross.XImplModel Cross.XImplPairs Cross.XImplTie.
+From DashuGen Require Import XLog2Params XImplTable.
+From Coq Require Import List.
 From Coq Require Import Reals.
 From Flocq Require Import Core IEEE754.BinarySingleNaN.
 Open Scope Z_scope.
@@ -358,3 +360,123 @@ Theorem C14_num_ord_f32_any : forall lg, lg_contract lg -> forall w, 32 <= w <= 
   wf a -> wf b -> dom_any w a -> dom_any w b -> ord_raw lg w a b = Some r -> r = spec_cmp (val a) (val b).
 Proof. exact ord_raw_any_correct. Qed.
 Print Assumptions C14_num_ord_f32_any.
+
+(** ------------------------------------------------------------------------------------------------
+    Deepening round 4.
+    (1) Repr::digits_ub and, with it, AbsOrd / the same-base PartialOrd / Ord with the library's RAW estimates for
+        significands of any size (multi-word significands go through log2_bounds_large): word size 32..64, bit lengths
+        below 2^62, at most 2^24 digits unless the base is 2 *)
+Theorem C14_f32_digits_ub_any : forall lg, lg_contract lg -> forall w, 32 <= w <= 64 -> forall B s,
+  2 <= B < 2 ^ w -> s <> 0 -> Z.log2 (Z.abs s) < 2 ^ 62 -> (B = 2 \/ Z.abs s < B ^ dub_max) ->
+  Z.abs s < B ^ digits_ub32 lg 64 w B s.
+Proof. exact digits_ub_sound_any. Qed.
+Print Assumptions C14_f32_digits_ub_any.
+
+Theorem C14_abs_ord_f32_any : forall lg, lg_contract lg -> forall w, 32 <= w <= 64 -> forall a b c,
+  wf a -> wf b -> dom_any w a -> dom_any w b -> dom_dub a -> dom_dub b ->
+  abs_raw lg w a b = Some c -> Some c = spec_abs_cmp (val a) (val b).
+Proof. exact abs_raw_any_correct. Qed.
+Print Assumptions C14_abs_ord_f32_any.
+
+Theorem C14_float_same_base_f32_any : forall lg, lg_contract lg -> forall w, 32 <= w <= 64 -> forall B s1 e1 s2 e2,
+  2 <= B < 2 ^ w -> fwf s1 e1 -> fwf s2 e2 -> Z.log2 (Z.abs s1) < 2 ^ 62 -> Z.log2 (Z.abs s2) < 2 ^ 62 ->
+  dub_dom B s1 -> dub_dom B s2 ->
+  Some (fsame_raw lg w B s1 e1 s2 e2) = spec_cmp (fval B s1 e1) (fval B s2 e2).
+Proof. exact fsame_raw_any_correct. Qed.
+Print Assumptions C14_float_same_base_f32_any.
+
+(** (4) the conventions of num-order for the special primitive floats (transcribed, any IEEE format) against dashu's:
+    an infinite f32 / f64 feeds the hasher 0, as dashu's infinite floats of any base do; NaN feeds -1; -0.0 hashes
+    like +0.0, to the hash 0 of every zero *)
+Theorem C14_prim_float_hash_inf : forall mb eb bits s, decode mb eb bits = DInf s -> prim_float_hash mb eb bits = 0.
+Proof. exact prim_float_hash_inf. Qed.
+Print Assumptions C14_prim_float_hash_inf.
+
+Theorem C14_prim_float_hash_nan : forall mb eb bits, decode mb eb bits = DNaN -> prim_float_hash mb eb bits = -1.
+Proof. exact prim_float_hash_nan. Qed.
+Print Assumptions C14_prim_float_hash_nan.
+
+Theorem C14_float_inf_hash : forall B e h, frepr_hash B 0 e = Some h -> h = 0.
+Proof. exact frepr_hash_zero_sig. Qed.
+Print Assumptions C14_float_inf_hash.
+
+Theorem C14_inf_hash_agree : forall mb eb bits s B e h, decode mb eb bits = DInf s ->
+  hash_asis (TF B 0 e) = Some h -> prim_float_hash mb eb bits = h.
+Proof. exact inf_hash_agree. Qed.
+Print Assumptions C14_inf_hash_agree.
+
+Theorem C14_prim_float_hash_zero : forall mb eb bits ex, 0 <= mb -> mb + 1 < 127 -> 1 <= eb -> 0 <= bits < 2 ^ (mb + eb + 1) ->
+  decode mb eb bits = DFin 0 ex -> prim_float_hash mb eb bits = 0.
+Proof. exact prim_float_hash_zero. Qed.
+Print Assumptions C14_prim_float_hash_zero.
+
+(** (3) the impl tables, REGENERATED from {integer,float,rational}/src/third_party/num_order.rs and src/cmp.rs on every
+    run (coq/gen/XImplTable.v): exactly the expected pairs exist (finite universe of 21 types, XImplModel.all_xty) ... *)
+Theorem C14_impl_table_numord_exact : pairs_exact numord_pairs expected_numord = true.
+Proof. exact numord_table_exact. Qed.
+Print Assumptions C14_impl_table_numord_exact.
+
+Theorem C14_impl_table_absord_exact : pairs_exact absord_pairs expected_absord = true.
+Proof. exact absord_table_exact. Qed.
+Print Assumptions C14_impl_table_absord_exact.
+
+Theorem C14_impl_table_numhash_exact : types_exact numhash_types expected_numhash = true.
+Proof. exact numhash_table_exact. Qed.
+Print Assumptions C14_impl_table_numhash_exact.
+
+Theorem C14_impl_table_numord_bodies : bodies_exact numord_rows expected_body_numord = true.
+Proof. exact numord_bodies_exact. Qed.
+Print Assumptions C14_impl_table_numord_bodies.
+
+Theorem C14_impl_table_numord_eq : map (fun r => (snd (fst r), snd r)) numord_eq_rows = (XRBig, XRelaxed) :: (XRelaxed, XRBig) :: nil.
+Proof. exact numord_eq_overrides. Qed.
+Print Assumptions C14_impl_table_numord_eq.
+
+Theorem C14_impl_table_numhash_routes :
+  forallb (fun r => match snd (fst r), snd r with
+                    | (XFBig | XRBig | XRelaxed), HFwd => true
+                    | (XUBig | XIBig | XFRepr | XQRepr), HBody => true
+                    | _, _ => false end) numhash_rows = true.
+Proof. exact numhash_routes. Qed.
+Print Assumptions C14_impl_table_numhash_routes.
+
+(** ... the expected pairs are the support of the model at the level of operand classes ... *)
+Theorem C14_impl_numord_model_covers : forall s r, In s all_xty -> In r all_xty -> expected_numord s r = true ->
+  ord_class_ok (cls_of s) (cls_of r) = true.
+Proof. exact numord_model_covers. Qed.
+Print Assumptions C14_impl_numord_model_covers.
+
+Theorem C14_impl_numord_model_served : forall c1 c2, ord_class_ok c1 c2 = true ->
+  existsb (fun s => existsb (fun r => expected_numord s r && cls_eqb (cls_of s) c1 && cls_eqb (cls_of r) c2) all_xty) all_xty = true.
+Proof. exact numord_model_served. Qed.
+Print Assumptions C14_impl_numord_model_served.
+
+Theorem C14_impl_numord_support : forall E egt ib fb qb a b,
+  ord_asis E egt ib fb qb a b <> None <-> ord_class_ok (cls_tag a) (cls_tag b) = true.
+Proof. exact ord_support. Qed.
+Print Assumptions C14_impl_numord_support.
+
+Theorem C14_impl_absord_model_covers : forall s r, In s all_xty -> In r all_xty -> expected_absord s r = true ->
+  abs_class_ok (cls_of s) (cls_of r) = true.
+Proof. exact absord_model_covers. Qed.
+Print Assumptions C14_impl_absord_model_covers.
+
+Theorem C14_impl_absord_support : forall E egt ib fb qb dub a b,
+  abs_asis E egt ib fb qb dub a b <> None -> abs_class_ok (cls_tag a) (cls_tag b) = true.
+Proof. exact abs_support. Qed.
+Print Assumptions C14_impl_absord_support.
+
+(** ... and every impl whose body is ONE call (a forwarding to another impl, a conversion of the primitive operand followed
+    by a comparison, a call of repr_cmp_* with or without `.reverse()`), interpreted over the transcribed bodies, is the
+    entry of the model for the classes of its two types: for every estimator, all operands *)
+Theorem C14_impl_numord_routes : forall E egt ib fb qb c s r rt, In (c, s, r, rt) numord_rows ->
+  forall a b, wf a -> wf b -> cls_tag a = cls_of s -> cls_tag b = cls_of r ->
+  ord_route_sem E egt ib fb qb rt a b = ord_asis E egt ib fb qb a b.
+Proof. exact numord_rows_sound. Qed.
+Print Assumptions C14_impl_numord_routes.
+
+Theorem C14_impl_absord_routes : forall E egt ib fb qb dub c s r rt, In (c, s, r, rt) absord_rows ->
+  forall a b, wf a -> wf b -> cls_tag a = cls_of s -> cls_tag b = cls_of r ->
+  abs_route_sem E egt ib fb qb dub rt a b = abs_asis E egt ib fb qb dub a b.
+Proof. exact absord_rows_sound. Qed.
+Print Assumptions C14_impl_absord_routes.
